@@ -23,13 +23,18 @@ import (
 	"github.com/ProjectSerenity/firefly/kernel/internal/verifrt"
 )
 
+var vfLockSink *Spinlock // forces the locks of the sequential traces onto the heap
+
 // vfSeqTraces enumerates the traces and checks each against the model.
 func vfSeqTraces(run *verifrt.Run, maxLen int, label string) {
 	ops := []byte{'A', 'T', 'R'}
 	var rec func(trace []byte)
 	rec = func(trace []byte) {
 		if len(trace) > 0 {
-			var l Spinlock
+			// heap-allocated (the interpreted build reaches the lock word through an integer address, which a moving
+			// goroutine stack would invalidate)
+			l := new(Spinlock)
+			vfLockSink = l
 			model := uint32(0)
 			run.Case()
 			run.Traces++
@@ -53,8 +58,13 @@ func vfSeqTraces(run *verifrt.Run, maxLen int, label string) {
 					l.Release()
 					model = 0
 				}
-				if l.state != model {
-					run.Violate("sequential-trace", label+" "+string(trace[:i+1]), fmt.Sprintf("%s: trace %s: lock word is %d, model says %d", label, trace[:i+1], l.state, model), map[string]string{"trace": string(trace[:i+1])})
+				// the lock's state is compared through its behaviour, not its representation: a copy of the lock can be
+				// taken by TryToAcquire iff the model says it is free
+				probe := new(Spinlock)
+				vfLockSink = probe
+				*probe = *l
+				if got := probe.TryToAcquire(); got != (model == 0) {
+					run.Violate("sequential-trace", label+" "+string(trace[:i+1]), fmt.Sprintf("%s: trace %s: the lock behaves as %s (a try-acquire on a copy returned %v), the model says %s", label, trace[:i+1], map[bool]string{true: "free", false: "held"}[got], got, map[uint32]string{0: "free", 1: "held"}[model]), map[string]string{"trace": string(trace[:i+1])})
 					return
 				}
 			}
@@ -79,18 +89,24 @@ func TestVerifC08Native(t *testing.T) {
 	if run.Replaying(&rp) {
 		if tr := rp["trace"]; tr != "" && tr != "stress" {
 			// a journalled trace (the worker hung or died in it): run exactly that one
-			var l Spinlock
+			l := new(Spinlock)
+			vfLockSink = l
+			held := false
 			verifrt.JournalJSON(rp)
 			for _, o := range tr {
 				switch o {
 				case 'A':
-					if l.state == 0 {
+					if !held {
 						l.Acquire()
+						held = true
 					}
 				case 'T':
-					l.TryToAcquire()
+					if l.TryToAcquire() {
+						held = true
+					}
 				case 'R':
 					l.Release()
+					held = false
 				}
 			}
 			verifrt.JournalClear()
